@@ -347,11 +347,17 @@ theorem pinv_launchExtensions (s : State) (ph : Phase) (ps : List String) (h : P
       · apply pinv_of_pq (pq_initFinish _ _ _ _ _)
         apply pinv_of_pq (pq_storeFatal _ _)
         exact pinv_of_eq (s := s) rfl rfl h
-      · apply ih
-        apply pinv_emit
-        have h0 : PInv { s with agents := s.agents ++ [{ name := p, ext := true, serial := s.nextSerial }], nextSerial := s.nextSerial + 1 } :=
-          pinv_of_eq (s := s) rfl rfl h
-        exact pinv_exec _ { name := p, gen := s.gen, chanCreated := true } h0 rfl rfl
+      · split
+        · -- Exec fails: no process, no exit channel
+          apply pinv_of_pq (pq_initFinish _ _ _ _ _)
+          apply pinv_of_pq (pq_storeFatal _ _)
+          apply pinv_emit
+          exact pinv_of_eq (s := s) rfl rfl h
+        · apply ih
+          apply pinv_emit
+          have h0 : PInv { s with agents := s.agents ++ [{ name := p, ext := true, serial := s.nextSerial }], nextSerial := s.nextSerial + 1 } :=
+            pinv_of_eq (s := s) rfl rfl h
+          exact pinv_exec _ { name := p, gen := s.gen, chanCreated := true } h0 rfl rfl
 
 theorem pinv_startInit (s : State) (ph : Phase) (h : PInv s) : PInv (startInit s ph) := by
   unfold startInit
